@@ -27,6 +27,7 @@ pub struct Found {
     pub body_line_start: usize,
     pub sig_norm: Option<String>,
     pub sig_text: String,
+    pub sig_src: String,
     pub lifted: Option<String>,
 }
 
@@ -321,6 +322,7 @@ impl Index {
                             body_line_start: line_of(&f.text, body_abs),
                             sig_norm: None,
                             sig_text: item.sig.to_token_stream().to_string(),
+                            sig_src: String::new(),
                             lifted: Some(format!("func!({})", name)),
                         });
                     }
@@ -613,6 +615,7 @@ fn locate_in(files: &[SrcFile], loc: &str, in_file: Option<&str>) -> Result<Foun
         body_line_start: f.line_base + line_of(&f.text, br.start),
         sig_norm: Some(norm(&sig_text)),
         sig_text,
+        sig_src: f.text[fr.sig.span().byte_range()].to_string(),
         lifted: None,
     })
 }
